@@ -87,6 +87,12 @@ package netpoll
 //@   requires cclosed(c) && !wrBlocked
 //@   ensures cclosed(c) && (n > 0 ==> errkind(err, ErrConnClosed)) && (n <= 0 ==> err == nil) && !wrBlocked
 //@   modifies c.waitReadSize, c.readTimer, time.Timer.tstate
+//@ func (*connection).Read @closed
+//@   property C12
+//@   uses (*connection).waitRead @closed
+//@   requires cclosed(c) && !wrBlocked
+//@   ensures cclosed(c) && n == 0 && (len(p) > 0 ==> errkind(err, ErrConnClosed)) && (len(p) == 0 ==> err == nil) && !wrBlocked
+//@   modifies c.waitReadSize, c.readTimer, time.Timer.tstate
 //@ func (*connection).Peek @closed
 //@   property C12
 //@   uses (*connection).waitRead @closed, (*UnsafeLinkBuffer).Peek @closed
